@@ -90,7 +90,7 @@ def main():
             lab = 'construction.base_constructor_chain_runs_first' if sorted(got) == sorted(want) else 'construction.field_initialisers_once_before_the_body'
             print('FAIL label=%s program=%s detail=explicit super=%s: printed %s, expected %s' % (lab, json.dumps(src), exp_super, got, want))
     # ---- explicit super(args): the applicable base constructor of lowest conversion cost runs, whatever the order of declaration
-    import itertools
+
     CT = {'Dog': 'public constructor(Dog d) -> Base { echo("Base(Dog)"); return this; }', 'Animal': 'public constructor(Animal a) -> Base { echo("Base(Animal)"); return this; }',
           'int': 'public constructor(int n) -> Base { echo("Base(int)"); return this; }', 'long': 'public constructor(long n) -> Base { echo("Base(long)"); return this; }'}
     for order in list(itertools.permutations(['Dog', 'Animal', 'int', 'long']))[::3]:
